@@ -41,6 +41,22 @@ pub fn simple_texts() -> Vec<String> {
 
 pub fn shrink_world(world: &World, prot: &[String]) -> Vec<World> {
     let mut out = vec![];
+    // many files: first try to drop half of them at once
+    let files: Vec<String> = world
+        .files()
+        .into_iter()
+        .filter(|f| !is_protected(f, prot))
+        .collect();
+    if files.len() > 8 {
+        for half in 0..2 {
+            let mut w = world.clone();
+            let (a, b) = files.split_at(files.len() / 2);
+            for f in if half == 0 { a } else { b } {
+                w.nodes.remove(f);
+            }
+            out.push(w);
+        }
+    }
     // remove directories (deepest first gives small steps; shallow first gives big steps -- try big first)
     for d in world.dirs() {
         if is_protected(&d, prot) {
